@@ -512,35 +512,81 @@ def check_broadcast_n(env: Env, shapes, spells, method="broadcast"):
     return None
 
 
-def check_inline_boundary(env: Env, a, b):
-    """The judgement at a call boundary: inline(model with input type b)(value of type a)."""
-    from onnx import TensorProto, helper
+INLINE_FORMS = ["single", "pos", "kw", "kw-reversed", "mixed-1", "mixed-2", "pos+default-omitted", "pos+default-pos",
+                "kw+default-kw", "mixed+default-kw", "override-default-kw", "override-default-pos"]
+
+
+def check_inline_boundary(env: Env, a, b, form="single", slot=0):
+    """The judgement at a call boundary: inline(model whose input `x` is declared with type b)(value of type a),
+    the value handed over in the given argument-passing form (positional / keyword / mixed / with a defaulted
+    input omitted or given / x itself a defaulted input that is overridden), x at position `slot` of the signature."""
+    import numpy as np
+    from onnx import TensorProto, helper, numpy_helper
 
     from spox import argument, inline
 
     tb, ta = env.mk(b), env.mk(a)
-    # a model whose only input is declared with type b (unused; the output is a constant), so that no
-    # operator's own type inference is involved: only the boundary judgement decides
+    f32 = helper.make_tensor_type_proto(TensorProto.FLOAT, [])
+    if form == "single":
+        names = ["x"]
+    else:
+        names = ["p", "q"]
+        names.insert(slot % 3, "x")
+    inputs = [helper.make_value_info(n, tb._to_onnx() if n == "x" else f32) for n in names]
+    inits = []
+    if "default" in form and not form.startswith("override"):
+        inputs.append(helper.make_value_info("d", helper.make_tensor_type_proto(TensorProto.FLOAT, [2])))
+        inits.append(numpy_helper.from_array(np.zeros(2, np.float32), "d"))
+    if form.startswith("override"):
+        # x itself has a default (an initializer of the declared type): needs a concrete numeric tensor type
+        sh, dt = getattr(tb, "shape", None), getattr(tb, "dtype", None)
+        if sh is None or dt is None or dt.kind not in "fiu" or any(not isinstance(d, int) for d in sh):
+            raise NotApplicable(form)
+        inits.append(numpy_helper.from_array(np.zeros(sh, dt), "x"))
+    # the inputs are unused (the output is a constant), so that no operator's own type inference is involved:
+    # only the boundary judgement decides
     graph = helper.make_graph(
         [helper.make_node("Constant", [], ["y"], value=helper.make_tensor("v", TensorProto.FLOAT, [], [0.0]))],
-        "g",
-        [helper.make_value_info("x", tb._to_onnx())],
-        [helper.make_tensor_value_info("y", TensorProto.FLOAT, [])],
-    )
+        "g", inputs, [helper.make_tensor_value_info("y", TensorProto.FLOAT, [])], initializer=inits)
     model = helper.make_model(graph, opset_imports=[helper.make_opsetid("", 17)])
     with warnings.catch_warnings():
         warnings.simplefilter("ignore")
-        arg = argument(ta)
+        vals = {"x": argument(ta), "p": argument(env.ts.Tensor(np.float32, ())), "q": argument(env.ts.Tensor(np.float32, ())),
+                "d": argument(env.ts.Tensor(np.float32, (2,)))}
+        if form in ("single", "pos", "pos+default-omitted"):
+            args, kwargs = [vals[n] for n in names], {}
+        elif form == "kw":
+            args, kwargs = [], {n: vals[n] for n in names}
+        elif form == "kw-reversed":
+            args, kwargs = [], {n: vals[n] for n in reversed(names)}
+        elif form in ("mixed-1", "mixed-2"):
+            k = 1 if form == "mixed-1" else 2
+            args, kwargs = [vals[n] for n in names[:k]], {n: vals[n] for n in names[k:]}
+        elif form == "pos+default-pos":
+            args, kwargs = [vals[n] for n in names] + [vals["d"]], {}
+        elif form == "kw+default-kw":
+            args, kwargs = [], {n: vals[n] for n in names + ["d"]}
+        elif form == "mixed+default-kw":
+            args, kwargs = [vals[names[0]]], {n: vals[n] for n in names[1:] + ["d"]}
+        elif form == "override-default-kw":
+            args, kwargs = [], {n: vals[n] for n in names}
+        elif form == "override-default-pos":
+            args, kwargs = [vals[n] for n in names], {}
+        else:
+            raise ValueError(form)
         try:
-            inline(model)(arg)
+            inline(model)(*args, **kwargs)
             accepted = True
         except TypeError:
             accepted = False
     want = has_common_value(env, a, b)
     if accepted != want:
         how = "accepted-without-common-value" if accepted else "rejected-with-common-value"
+        shown = ", ".join([("x" if v is vals["x"] else "·") for v in args] + [f"{k}={'x' if k == 'x' else '·'}" for k in kwargs])
         return (f"inline-boundary:{how}:{aspect(a, b)}",
-                f"inline(model: x is {tb!r})(value of type {ta!r}) {'accepted' if accepted else 'TypeError'}")
+                f"inline(model: inputs {names + (['d (default)'] if 'd' in [i.name for i in inits] else [])}, x is {tb!r}"
+                f"{' with a default' if form.startswith('override') else ''})({shown}) with x of type {ta!r} "
+                f"{'accepted' if accepted else 'TypeError'} [{form}]")
     return None
 
 
@@ -672,7 +718,7 @@ CHECKS = {
     "broadcast": lambda env, c: check_broadcast(env, c["a"], c["b"], None, c.get("spell", "Shape"),
                                                 c.get("self_spell", "Shape"), c.get("method", "broadcast")),
     "broadcast_n": lambda env, c: check_broadcast_n(env, c["shapes"], c["spells"], c.get("method", "broadcast")),
-    "inline": lambda env, c: check_inline_boundary(env, c["a"], c["b"]),
+    "inline": lambda env, c: check_inline_boundary(env, c["a"], c["b"], c.get("form", "single"), c.get("slot", 0)),
 }
 
 
@@ -749,6 +795,10 @@ def run(ck: core.Check):
     # ---------------------------------------------------------------- domains
     rt_types = []
     some_shapes = [None, [], [2], ["N", None, 3], [0, "M"]]
+    # names of symbolic dimensions: anything a user may write, in particular names that look like the ones other
+    # layers invent or strip (`unk__<n>` of onnx shape inference), digits, keywords of the simple format, non-ASCII
+    DIM_NAMES = ["unk__0", "unk__batch", "unk__", "unk_1", "UNK__1", "xunk__0", "7", "-1", "None", "?", "N.1", "a b", "名前",
+                 "batch_size", "*", "N" * 70, "\\n", "dim_param", "0x10", "1e3", "_", "é"]
     for r in table["spellings"]:
         if r["cls"] is None:
             continue
@@ -761,6 +811,14 @@ def run(ck: core.Check):
         for w in WRAPS:
             for sh in nshapes:
                 rt_types.append(wrap(["t", e, sh], w))
+    name_types = []
+    for i, nm in enumerate(DIM_NAMES):
+        e = E[i % 2]
+        for sh in ([nm], [nm, 3], [2, nm], [nm, nm], [nm, None, "N"], [DIM_NAMES[(i + 1) % len(DIM_NAMES)], nm]):
+            name_types.append(["t", e, sh])
+        for w in WRAPS:
+            name_types.append(wrap(["t", e, [nm, 3]], w))
+    rt_types.extend(name_types)
     types = [["any"], ["s", ["any"]], ["o", ["any"]]]
     for e in E:
         for sh in shapes:
@@ -1264,6 +1322,9 @@ def run(ck: core.Check):
         for c in all_codes:
             for sh in [None, [], [2, "N", None, ""], [""]]:
                 protos.append(["t", c, sh])
+        for i, nm in enumerate(DIM_NAMES):  # dim_param values read from a proto must come back verbatim
+            protos.append(["t", all_codes[i % len(all_codes)], [nm, 3, nm]])
+            protos.append(wrap(["t", 1, [2, nm]], WRAPS[i % len(WRAPS)]))
         for w in WRAPS:
             protos.append(wrap(["t", rng.choice(all_codes), rng.choice([None, [3, "", None]])], w))
         real_from = []
@@ -1301,7 +1362,7 @@ def run(ck: core.Check):
 
     def facet_inline():
         # more cases when the direct sweep of _subtype could not be observed
-        n_inl = ck.pick(60, 600) * (5 if "_subtype sweep" in unobservable else 1)
+        n_inl = ck.pick(240, 1800) * (5 if "_subtype sweep" in unobservable else 1)
         for k in range(n_inl):
             a = rng.choice(plain)
             b = rng.choice(plain)
@@ -1309,8 +1370,19 @@ def run(ck: core.Check):
                 wa, la = skeleton(a)
                 cand = [t for t in plain if skeleton(t)[0] == wa and skeleton(t)[1][1] == la[1]]
                 b = rng.choice(cand)
+            form, slot = INLINE_FORMS[k % len(INLINE_FORMS)], (k // len(INLINE_FORMS)) % 3
+            if form.startswith("override"):
+                # x with a default: the declared type must be a concrete numeric tensor type
+                conc = [t for t in plain if t[0] == "t" and t[1] in E and t[2] is not None and all(isinstance(d, int) for d in t[2])]
+                b = rng.choice(conc)
+                if k % 2 == 0:
+                    a = rng.choice([t for t in plain if t[0] == "t" and t[1] == b[1]])
+            inl_stats.setdefault("forms", {}).setdefault(form, 0)
+            inl_stats["forms"][form] += 1
             try:
-                bad = check_inline_boundary(env, a, b)
+                bad = check_inline_boundary(env, a, b, form, slot)
+            except NotApplicable:
+                continue
             except Exception as e:  # noqa: BLE001  (a model input type spox refuses to build is not a verdict)
                 inl_stats["skipped"] += 1
                 if inl_stats["skipped"] <= 3:
@@ -1319,7 +1391,7 @@ def run(ck: core.Check):
             ck.count(("inline", repr(a), repr(b)))
             inl_stats["compatible" if has_common_value(env, a, b) else "incompatible"] += 1
             if bad:
-                ck.failure(bad[0], bad[1], {"check": "inline", "a": a, "b": b})
+                ck.failure(bad[0], bad[1], {"check": "inline", "a": a, "b": b, "form": form, "slot": slot})
         if inl_stats["skipped"] > n_inl // 2:
             ck.broken("correspondence", "C13 inline call boundary not observable", f"{inl_stats['skipped']} of {n_inl} cases raised")
 
